@@ -173,7 +173,7 @@ def V1(pt, clause, expected, observed):
 
 # ------------------------------------------------------------------ part 2
 def alphabet():
-    ops = [["read", 0], ["read", 1], ["read_path", 0], ["read_opts", 1], ["read_write", 0], ["read_write", 1]]
+    ops = [["read", 0], ["read", 1], ["read", 2], ["read", 3], ["read_path", 0], ["read_opts", 1], ["read_write", 0], ["read_write", 1]]
     for which in ("first", "last"):
         ops += [["mut_header", which], ["mut_default", which], ["rename_curve", which], ["edit_data", which],
                 ["append_curve", which], ["delete_curve", which], ["mut_sections", which]]
@@ -194,7 +194,12 @@ _PA = T_LATIN.replace("~Curve\nDEPT.M : depth\nTEMP.°C : température\n", _SHAP
 _PB = T_WRAPPED.replace("Bohrung", "Zweite Bohrung").replace("~Curve\nDEPT.M : depth\nTEMP.°C : température\n", _SHAPES_B[0]).replace(
     "~Parameter\nBHT.°C 35.5 : bottom hole température\nÅÄÖ.å äö : éèêë\n", _SHAPES_B[1]).replace("1.0\n10.5\n2.0\n-999.25\n", "1.0\n5\n10.5\n2.0\n6\n-999.25\n")
 assert _PA != T_LATIN and "COND..MS/M" in _PA and "deep.." in _PB
-PURE_TEXTS = [_PA, _PB]
+# a comma-DELIMITED file (DLM COMMA) and a blank-delimited file whose numbers use the comma as DECIMAL mark: the two
+# readings of ',' must not leak from one read into a later one
+_PC = T_LATIN.replace("WRAP. NO : wrap\n", "WRAP. NO : wrap\nDLM. COMMA : delimiter\n").replace("1.0 10.5\n2.0 -999.25\n", "1.0,10.5\n2.0,-999.25\n3.0,7\n")
+_PD = T_LATIN.replace("Bohrung", "Dritte Bohrung").replace("STOP.M 2.0", "STOP.M 2,0").replace("1.0 10.5\n2.0 -999.25\n", "1,0 10,5\n2,0 -999,25\n")
+assert "DLM. COMMA" in _PC and "1.0,10.5" in _PC and "1,0 10,5" in _PD
+PURE_TEXTS = [_PA, _PB, _PC, _PD]
 WRITE_CFGS = [{}, {"version": 1.2, "wrap": True}, {"fmt": "%.2f", "mnemonics_header": True}]
 
 
@@ -307,25 +312,35 @@ def module_snapshot():
     return parts
 
 
-def observe():
-    """What a user would see after the history: fresh reads, a fresh LASFile, module tables."""
+OBS_PARTS = ["mod", "read0", "read1", "read2", "read3", "new", "write0"]
+
+
+def observe(only=None):
+    """What a user would see after the history: module tables, fresh reads, a fresh LASFile.
+    `only` restricts the observation to one part (the reference computes every part in its own interpreter, so
+    that no part of the reference can be influenced by another part)."""
     obs = {}
+    if only in (None, "mod"):
+        for k, v in module_snapshot():
+            obs["mod:" + k] = v
     for i, t in enumerate(PURE_TEXTS):
+        if only not in (None, "read%d" % i):
+            continue
         try:
             obs["read%d" % i] = repr(canon.las_tag(lasio.read(t), "strict"))
         except Exception as e:
             obs["read%d" % i] = "raises %s: %s" % (type(e).__name__, str(e)[:200])
-    f = lasio.LASFile()
-    obs["new"] = repr(canon.las_tag(f, "strict", data=False))
-    try:
-        s = io.StringIO()
-        g = lasio.read(PURE_TEXTS[0])
-        g.write(s)
-        obs["write0"] = s.getvalue()
-    except Exception as e:
-        obs["write0"] = "raises %s: %s" % (type(e).__name__, str(e)[:200])
-    for k, v in module_snapshot():
-        obs["mod:" + k] = v
+    if only in (None, "new"):
+        f = lasio.LASFile()
+        obs["new"] = repr(canon.las_tag(f, "strict", data=False))
+    if only in (None, "write0"):
+        try:
+            s = io.StringIO()
+            g = lasio.read(PURE_TEXTS[0])
+            g.write(s)
+            obs["write0"] = s.getvalue()
+        except Exception as e:
+            obs["write0"] = "raises %s: %s" % (type(e).__name__, str(e)[:200])
     return obs
 
 
@@ -334,16 +349,25 @@ def digest(obs):
 
 
 def reference_digest():
-    """Computed in a separate fresh interpreter (no history at all)."""
+    """Every part computed in its own fresh interpreter (no history at all, not even the other parts)."""
     repo = os.path.realpath(os.environ.get("VERIF_REPO", "/repo"))
     root = os.path.dirname(os.path.dirname(os.path.dirname(os.path.abspath(__file__))))
-    code = ("import sys, json, logging; sys.path.insert(0, %r); sys.path.insert(0, %r); logging.disable(logging.CRITICAL);"
-            "from lasiomc.checks import c10; print('DIGEST' + json.dumps(c10.digest(c10.observe())))") % (root, repo)
-    p = subprocess.run([sys.executable, "-c", code], stdout=subprocess.PIPE, stderr=subprocess.PIPE, text=True, timeout=300)
-    for line in p.stdout.splitlines():
-        if line.startswith("DIGEST"):
-            return json.loads(line[6:])
-    raise RuntimeError("reference interpreter failed: " + p.stderr[-500:])
+    procs = []
+    for part in OBS_PARTS:
+        code = ("import sys, json, logging; sys.path.insert(0, %r); sys.path.insert(0, %r); logging.disable(logging.CRITICAL);"
+                "from lasiomc.checks import c10; print('DIGEST' + json.dumps(c10.digest(c10.observe(%r))))") % (root, repo, part)
+        procs.append(subprocess.Popen([sys.executable, "-c", code], stdout=subprocess.PIPE, stderr=subprocess.PIPE, text=True))
+    ref = {}
+    for part, p in zip(OBS_PARTS, procs):
+        out, err = p.communicate(timeout=300)
+        got = None
+        for line in out.splitlines():
+            if line.startswith("DIGEST"):
+                got = json.loads(line[6:])
+        if got is None:
+            raise RuntimeError("reference interpreter failed (%s): %s" % (part, err[-500:]))
+        ref.update(got)
+    return ref
 
 
 _REF = {}
@@ -391,7 +415,7 @@ def check_history(history, ref):
 
 
 def V2(history, clause, expected, observed, feat):
-    return {"clause": clause, "sig": "last-op=%s|%s" % (history[-1][0], feat), "witness": {"history": history},
+    return {"clause": clause, "sig": "last-op=%s|%s" % (history[-1][0] if history else "none", feat), "witness": {"history": history},
             "expected": expected, "observed": observed, "size": len(history),
             "repro": "in one interpreter run the operations %r (see lasiomc.checks.c10.apply_op), then lasio.read(text) / lasio.LASFile()" % (history,)}
 
